@@ -45,6 +45,9 @@ type HFault struct {
 	Call   int    `json:"call,omitempty"`
 	Method string `json:"method,omitempty"`
 	Kind   string `json:"kind"`
+	// Err: the failing call reports this *oidc.Error (any error code, also outside the library's constants) instead of the value
+	// vkit would inject; Kind is then error (no result) or partial (result and error).
+	Err *OErr `json:"err,omitempty"`
 }
 
 var faultKinds = []string{"error", "deadline", "partial", "oidc", "oidc-wrapped"}
@@ -104,6 +107,11 @@ func genFaults(t *rapid.T, sc string) []HFault {
 		return nil
 	}
 	f := HFault{Kind: rapid.SampledFrom(faultKinds).Draw(t, "fkind")}
+	if rapid.IntRange(0, 2).Draw(t, "fcustom") == 0 {
+		// the storage words the failure itself: an *oidc.Error with a code of its own choosing
+		f.Kind = rapid.SampledFrom([]string{"error", "error", "error", "partial"}).Draw(t, "fckind")
+		f.Err = genOErr(t, "fc")
+	}
 	if rapid.IntRange(0, 3).Draw(t, "fby") > 0 {
 		f.Call = rapid.SampledFrom([]int{1, 2, 2, 2, 3, 3, 3, 4, 4, 5, 6, 7, 8, 10}).Draw(t, "fcall")
 	} else if rapid.IntRange(0, 3).Draw(t, "fmany") > 0 {
@@ -183,6 +191,11 @@ func genCred(t *rapid.T, label string, dflt string) cred {
 	if k == "dflt" {
 		k = dflt
 	}
+	return genCredKind(t, label, k)
+}
+
+// genCredKind renders one kind of credential presentation.
+func genCredKind(t *rapid.T, label string, k string) cred {
 	switch k {
 	case "basic-web":
 		return cred{hdr: []KV{{K: "Authorization", V: basic("web", "s3cret")}}, label: k}
@@ -294,8 +307,9 @@ var tokenTypes = []string{"urn:ietf:params:oauth:token-type:access_token", "urn:
 var liveTokens = []string{"{at}", "{at}", "{jwt_at}", "{jwt_at}", "{rt}", "{rt}", "{idt}", "{idt}", "{tok0}", "{tok0}", "{tok1}", "opaque-garbage", "e30.bnVsbA.e30", "{at_other}", "",
 	"{at_native}", "{at_jwt}", "{rt_post}", "{idt_post}", "{at_revoked}", "{at_expired}", "{rt_used}", "{rt_expired}", "{at_svc}", "{at_device}", "{rt_device}", "{idt_device}", "{at_implicit}", "{idt_implicit}"}
 
-func genScenario(t *rapid.T, sc string) (parts, string, []string) {
+func genScenario(t *rapid.T, sc string, pref map[string]string) (parts, string, []string) {
 	p := parts{method: "POST", ct: "application/x-www-form-urlencoded", sep: "&"}
+	slot := func(t *rapid.T, label string, right ...string) string { return slotPref(t, pref, label, right...) }
 	dflt := "basic-web"
 	var tags []string
 	pick := func(label string, vals ...string) string { return rapid.SampledFrom(vals).Draw(t, label) }
@@ -499,7 +513,11 @@ func genScenario(t *rapid.T, sc string) (parts, string, []string) {
 	return p, dflt, tags
 }
 
-func genHTTPCase(t *rapid.T) HTTPCase {
+func genHTTPCase(t *rapid.T) HTTPCase { return genHTTPCaseWith(t, false) }
+
+// genHTTPCaseWith: calm = the request under test is mostly a correct one (default credentials three times out of four, at most
+// one mutation), so that it gets deep into its handler (the overlap family holds it there).
+func genHTTPCaseWith(t *rapid.T, calm bool) HTTPCase {
 	var c HTTPCase
 	c.Router = rapid.SampledFrom([]string{"provider", "legacy"}).Draw(t, "router")
 	c.Issuer = rapid.SampledFrom([]string{"static", "host", "forwarded", "static", "host", "forwarded"}).Draw(t, "issuer")
@@ -513,18 +531,74 @@ func genHTTPCase(t *rapid.T) HTTPCase {
 	c.ErrStyle = rapid.SampledFrom([]string{"", "", "", "oidc", "wrapped", "server"}).Draw(t, "errstyle")
 	c.Repeat = rapid.SampledFrom([]int{0, 0, 0, 0, 0, 0, 0, 1, 1, 2}).Draw(t, "repeat")
 	c.Scenario = rapid.SampledFrom(httpScenarios).Draw(t, "scenario")
-	p, dflt, tags := genScenario(t, c.Scenario)
-	c.Tags = tags
+	w := genWire(t, c.Scenario, c.Issuer, nil, calm)
 	c.Faults = genFaults(t, c.Scenario)
+	c.Method, c.Target, c.Headers, c.Body, c.Direct, c.Muts, c.Tags = w.Method, w.Target, w.Headers, w.Body, w.Direct, w.Muts, w.Tags
+	if c.Direct != "" {
+		c.Router = "provider"
+	}
+	c.Toks = genToksFor(t, w.text(), nil)
+	return c
+}
+
+// wireReq is one request in wire-format parts (what HTTPCase carries for its request under test).
+type wireReq struct {
+	Method   string   `json:"method"`
+	Target   string   `json:"target"`
+	Headers  []KV     `json:"headers,omitempty"`
+	Body     string   `json:"body,omitempty"`
+	Direct   string   `json:"direct,omitempty"`
+	Scenario string   `json:"scenario,omitempty"`
+	Muts     []string `json:"muts,omitempty"`
+	Tags     []string `json:"tags,omitempty"`
+}
+
+func (w wireReq) text() string {
+	all := w.Target + " " + w.Body
+	for _, h := range w.Headers {
+		all += " " + h.V
+	}
+	return all
+}
+
+// genToksFor draws the hostile tokens {tok0} {tok1} a request text refers to (have: the ones that exist already).
+func genToksFor(t *rapid.T, all string, have []TokSpec) []TokSpec {
+	for i := 0; i < 2; i++ {
+		if strings.Contains(all, fmt.Sprintf("tok%d}", i)) {
+			for len(have) <= i {
+				have = append(have, genOPTok(t, fmt.Sprintf("optok%d", len(have))))
+			}
+		}
+	}
+	return have
+}
+
+// genWire draws one request of scenario sc (credentials, 0-3 mutations, Host / Forwarded for request-derived issuers, now and
+// then aimed at an exported handler function). pref: live material (class -> placeholder) that credential-like slots of
+// the matching class prefer, so that several requests of one case present the same code / token (nil: no preference).
+func genWire(t *rapid.T, sc, issuer string, pref map[string]string, calm bool) wireReq {
+	var c wireReq
+	c.Scenario = sc
+	p, dflt, tags := genScenario(t, sc, pref)
+	c.Tags = tags
 	needsCred := strings.HasPrefix(c.Scenario, "token:") || c.Scenario == "introspect" || c.Scenario == "revoke" || c.Scenario == "device_authorization"
 	if needsCred || rapid.IntRange(0, 9).Draw(t, "credany") >= 8 {
-		cr := genCred(t, "cred", dflt)
+		var cr cred
+		if calm && rapid.IntRange(0, 3).Draw(t, "calmcred") > 0 {
+			cr = genCredKind(t, "cred", dflt)
+		} else {
+			cr = genCred(t, "cred", dflt)
+		}
 		p.headers = append(p.headers, cr.hdr...)
 		p.form = append(p.form, cr.form...)
 		c.Muts = append(c.Muts, "cred:"+cr.label)
 	}
 	// mutations
-	nm := rapid.SampledFrom([]int{0, 0, 1, 1, 1, 2, 2, 3}).Draw(t, "nmut")
+	nmuts := []int{0, 0, 1, 1, 1, 2, 2, 3}
+	if calm {
+		nmuts = []int{0, 0, 0, 0, 1, 1}
+	}
+	nm := rapid.SampledFrom(nmuts).Draw(t, "nmut")
 	for i := 0; i < nm; i++ {
 		l := fmt.Sprintf("m%d", i)
 		list := &p.form
@@ -613,10 +687,10 @@ func genHTTPCase(t *rapid.T) HTTPCase {
 		c.Muts = append(c.Muts, mk)
 	}
 	// the issuer of a non-static provider is derived from the request: the Host / Forwarded header is input like any other
-	if c.Issuer != "static" && rapid.Bool().Draw(t, "hostq") {
+	if issuer != "static" && rapid.Bool().Draw(t, "hostq") {
 		hv := rapid.SampledFrom(hostValues).Draw(t, "hostv")
 		switch {
-		case c.Issuer == "forwarded" && rapid.Bool().Draw(t, "fwd"):
+		case issuer == "forwarded" && rapid.Bool().Draw(t, "fwd"):
 			p.headers = append(p.headers, KV{K: rapid.SampledFrom([]string{"Forwarded", "X-Forwarded-Host"}).Draw(t, "fwdh"), V: rapid.SampledFrom([]string{"host=", "for=1.2.3.4;proto=https;host=", ""}).Draw(t, "fwdp") + hv})
 		default:
 			p.headers = append(p.headers, KV{K: "Host", V: hv})
@@ -664,7 +738,6 @@ func genHTTPCase(t *rapid.T) HTTPCase {
 		}
 		if len(cands) > 0 {
 			c.Direct = rapid.SampledFrom(cands).Draw(t, "directfn")
-			c.Router = "provider"
 		}
 	}
 	// render
@@ -682,18 +755,6 @@ func genHTTPCase(t *rapid.T) HTTPCase {
 		c.Headers = append(c.Headers, KV{K: "Content-Type", V: p.ct})
 	}
 	c.Headers = append(c.Headers, p.headers...)
-	// hostile tokens referenced by the request
-	all := c.Target + c.Body
-	for _, h := range c.Headers {
-		all += h.V
-	}
-	for i := 0; i < 2; i++ {
-		if strings.Contains(all, fmt.Sprintf("tok%d}", i)) {
-			for len(c.Toks) <= i {
-				c.Toks = append(c.Toks, genOPTok(t, fmt.Sprintf("optok%d", len(c.Toks))))
-			}
-		}
-	}
 	return c
 }
 
@@ -771,7 +832,9 @@ func directHandler(name string, sut *vkit.SUT) http.Handler {
 	case "Keys":
 		f = func(w http.ResponseWriter, r *http.Request) { op.Keys(w, r, p.Storage()) }
 	case "Discover":
-		f = func(w http.ResponseWriter, r *http.Request) { op.Discover(w, op.CreateDiscoveryConfig(r.Context(), p, p.Storage())) }
+		f = func(w http.ResponseWriter, r *http.Request) {
+			op.Discover(w, op.CreateDiscoveryConfig(r.Context(), p, p.Storage()))
+		}
 	default:
 		return nil
 	}
@@ -820,8 +883,9 @@ func lenientValues(s string) url.Values {
 	return v
 }
 
-func runHTTP(c HTTPCase, res *vkit.Result, h string) {
-	res.Label("fam:http")
+// setupHTTP builds the provider of a case (fresh store behind the check's own storage hook, see hook_test.go) and runs
+// the preparation flows for the live material that text mentions.
+func setupHTTP(c HTTPCase, text string, res *vkit.Result) (*httpEnv, *hook, string) {
 	now := time.Now()
 	alg := c.SignAlg
 	keyName, ok := signKeys[alg]
@@ -855,19 +919,18 @@ func runHTTP(c HTTPCase, res *vkit.Result, h string) {
 			spec.ReqObj = false
 		}
 	}
+	hk := &hook{}
+	spec.WrapStorage = func(inner op.Storage) op.Storage { return hooked(inner, hk) }
 	sut, err := vkit.Build(spec, st)
 	if err != nil {
 		res.Grey = true
 		res.Label("http:build-failed")
-		return
+		return nil, nil, router
 	}
 	e := &httpEnv{c: c, st: st, sut: sut, ag: vkit.NewAgent(sut), env: map[string]string{}, now: now, toks: map[string]flowToks{}}
-	all := c.Target + " " + c.Body
-	for _, hd := range c.Headers {
-		all += " " + hd.V
-	}
+	hk.env, hk.now = e.env, now
 	for _, ts := range c.Toks {
-		all += " " + ts.Payload + ts.Header + ts.Raw + ts.Key
+		text += " " + ts.Payload + ts.Header + ts.Raw + ts.Key
 	}
 	// the preparation flows run through the same provider; a panic there is a finding of its own
 	func() {
@@ -876,7 +939,7 @@ func runHTTP(c HTTPCase, res *vkit.Result, h string) {
 				res.Fail("C09:harness-prep-panic", "preparing live material panicked: %v", p)
 			}
 		}()
-		e.prepare(all)
+		e.prepare(text)
 	}()
 	for _, n := range e.notes {
 		res.Label(n)
@@ -885,18 +948,42 @@ func runHTTP(c HTTPCase, res *vkit.Result, h string) {
 		e.env["p:"+name] = pth
 	}
 	e.env["p:callback"] = sut.CallbackPath()
+	return e, hk, router
+}
 
-	// wire format -> net/http's own request parser (the sound input domain: what a Go HTTP server hands to the handler)
-	method := c.Method
-	if method == "" {
-		method = "GET"
+// wired is a request after net/http's own parser: the sound input domain (what a Go HTTP server hands to the handler).
+type wired struct {
+	raw     string
+	method  string
+	target  string
+	body    string
+	refused string // non-empty: net/http itself refuses the message, the handler never sees it
+	handler http.Handler
+	where   string
+	routed  bool
+}
+
+func (w *wired) request() (*http.Request, error) {
+	req, err := http.ReadRequest(bufio.NewReaderSize(strings.NewReader(w.raw), 1<<20))
+	if err == nil {
+		req.RemoteAddr = "192.0.2.1:1234"
 	}
-	target := expandQ(c.Target, e.env, now)
-	body := expandQ(c.Body, e.env, now)
+	return req, err
+}
+
+// wire renders the request, lets net/http parse it and finds the handler it is aimed at.
+func (e *httpEnv) wire(q wireReq) *wired {
+	now, sut := e.now, e.sut
+	w := &wired{method: q.Method}
+	if w.method == "" {
+		w.method = "GET"
+	}
+	w.target = expandQ(q.Target, e.env, now)
+	w.body = expandQ(q.Body, e.env, now)
 	var raw strings.Builder
-	raw.WriteString(method + " " + target + " HTTP/1.1\r\n")
+	raw.WriteString(w.method + " " + w.target + " HTTP/1.1\r\n")
 	nHost := 0
-	for _, hd := range c.Headers {
+	for _, hd := range q.Headers {
 		k := strings.NewReplacer("\r", "", "\n", "", ":", "", " ", "").Replace(expand(hd.K, e.env, now))
 		v := strings.NewReplacer("\r", " ", "\n", " ").Replace(expand(hd.V, e.env, now))
 		if k == "" {
@@ -914,60 +1001,121 @@ func runHTTP(c HTTPCase, res *vkit.Result, h string) {
 		raw.WriteString("Host: " + opHost + "\r\n")
 		nHost = 1
 	}
-	raw.WriteString(fmt.Sprintf("Content-Length: %d\r\n\r\n", len(body)))
-	raw.WriteString(body)
-	req, perr := http.ReadRequest(bufio.NewReaderSize(strings.NewReader(raw.String()), 1<<20))
+	raw.WriteString(fmt.Sprintf("Content-Length: %d\r\n\r\n", len(w.body)))
+	raw.WriteString(w.body)
+	w.raw = raw.String()
+	req, perr := w.request()
 	if perr != nil {
-		// net/http itself refuses the message: the handler never sees it
-		res.Grey = true
-		res.Label("http:rejected-by-net/http")
-		res.Key = "http|unparseable|" + h
-		return
+		w.refused = "unparseable"
+		return w
 	}
 	if why := serverRefuses(req, nHost); why != "" {
-		res.Grey = true
-		res.Label("http:rejected-by-net/http")
-		res.Key = "http|refused|" + why + "|" + h
-		return
+		w.refused = "refused|" + why
+		return w
 	}
-	req.RemoteAddr = "192.0.2.1:1234"
-
-	handler := sut.Handler
-	where := "route:none"
-	routed := false
-	if c.Direct != "" {
-		if dh := directHandler(c.Direct, sut); dh != nil {
-			handler = dh
-			where = "direct:" + c.Direct
-			routed = true
+	w.handler = sut.Handler
+	w.where = "route:none"
+	if q.Direct != "" {
+		if dh := directHandler(q.Direct, sut); dh != nil {
+			w.handler = dh
+			w.where = "direct:" + q.Direct
+			w.routed = true
 		}
 	} else {
 		pth := req.URL.Path
 		for name, pp := range sut.Paths {
 			if pth == pp {
-				where, routed = name, true
+				w.where, w.routed = name, true
 			}
 		}
 		switch pth {
 		case sut.CallbackPath():
-			where, routed = "callback", true
+			w.where, w.routed = "callback", true
 		case "/.well-known/openid-configuration":
-			where, routed = "discovery", true
+			w.where, w.routed = "discovery", true
 		case "/healthz", "/ready":
-			where, routed = strings.TrimPrefix(pth, "/"), true
+			w.where, w.routed = strings.TrimPrefix(pth, "/"), true
 		}
 	}
-	grant := lenientValues(body).Get("grant_type")
+	grant := lenientValues(w.body).Get("grant_type")
 	if grant == "" {
 		grant = lenientValues(req.URL.RawQuery).Get("grant_type")
 	}
-	if where == "token" && grant != "" {
+	if w.where == "token" && grant != "" {
 		g := grant
 		if !contains(vkit.AllGrants, g) {
 			g = "other"
 		}
-		where += ":" + g
+		w.where += ":" + g
 	}
+	return w
+}
+
+// judgeAnswer is the per-request oracle: no panic, WriteHeader at most once and with a status net/http accepts, valid status,
+// one JSON document, nothing (no storage call - after lists the calls made after the first response byte -, no token
+// material) after the first byte of an error answer. It reports whether the answer is an error answer.
+func judgeAnswer(res *vkit.Result, r *vkit.Resp, where, method, target string, after []string) bool {
+	if bs, ok := r.Panic.(badStatus); ok {
+		res.Fail("C09:invalid-status:"+where, "%s %s: the handler called WriteHeader(%d): not a status code (net/http panics with 'invalid WriteHeader code %d', the client gets no answer)\n%s", method, clip(target, 200), int(bs), int(bs),
+			clip(strings.Join(libFrames(r.Stack), " <- "), 600))
+	} else if r.Panic != nil {
+		res.Fail(panicFP(r.Stack), "%s %s -> panic: %v (response already started: %v, status %d)\n%s", method, clip(target, 200), r.Panic, r.JournalAtWrite >= 0, r.Status,
+			clip(strings.Join(libFrames(r.Stack), " <- "), 600))
+	}
+	if r.WriteHeaderCalls > 1 {
+		res.Fail("C09:two-responses:"+where, "%s %s: WriteHeader called %d times (first status %d); body %q", method, clip(target, 200), r.WriteHeaderCalls, r.Status, clip(string(r.Body), 300))
+	}
+	if r.Panic == nil && (r.Status < 100 || r.Status > 599) {
+		res.Fail("C09:invalid-status:"+where, "%s %s: status code %d is not a valid HTTP status", method, clip(target, 200), r.Status)
+	}
+	errorAnswer := r.Status >= 400
+	if r.IsRedirect() {
+		if dp := vkit.DeliveredParams(r.Location()); dp.Get("error") != "" {
+			errorAnswer = true
+		}
+	}
+	docs, clean := jsonDocs(r.Body)
+	if strings.HasPrefix(r.Header.Get("Content-Type"), "application/json") && len(r.Body) > 0 && r.WriteHeaderCalls <= 1 && r.Panic == nil {
+		if !clean || len(docs) != 1 {
+			res.Fail("C09:malformed-json-response:"+where, "%s %s: response declared as JSON is not one JSON document: %q", method, clip(target, 200), clip(string(r.Body), 300))
+		}
+	}
+	if errorAnswer {
+		if len(after) > 0 {
+			res.Fail("C09:storage-after-error:"+where+":"+after[0], "%s %s: answered %d, then called storage (%s, %d calls after the first response byte)", method, clip(target, 200), r.Status, after[0], len(after))
+		}
+		if tm := tokenMaterial(r.Body); len(tm) > 0 {
+			res.Fail("C09:tokens-after-error:"+where, "%s %s: error answer (status %d) carries token material %v: %q", method, clip(target, 200), r.Status, tm, clip(string(r.Body), 300))
+		}
+		if r.IsRedirect() {
+			dp := vkit.DeliveredParams(r.Location())
+			for _, k := range tokenMembers {
+				if dp.Get(k) != "" && dp.Get("error") != "" {
+					res.Fail("C09:tokens-after-error:"+where, "%s %s: error redirect carries %s", method, clip(target, 200), k)
+				}
+			}
+		}
+	}
+	return errorAnswer
+}
+
+func runHTTP(c HTTPCase, res *vkit.Result, h string) {
+	res.Label("fam:http")
+	q := wireReq{Method: c.Method, Target: c.Target, Headers: c.Headers, Body: c.Body, Direct: c.Direct, Scenario: c.Scenario}
+	e, hk, router := setupHTTP(c, q.text(), res)
+	if e == nil {
+		return
+	}
+	st := e.st
+	w := e.wire(q)
+	if w.refused != "" {
+		// net/http itself refuses the message: the handler never sees it
+		res.Grey = true
+		res.Label("http:rejected-by-net/http")
+		res.Key = "http|" + w.refused + "|" + h
+		return
+	}
+	where, routed, target, method := w.where, w.routed, w.target, w.method
 
 	// the same request, served 1+Repeat times by the same instance (a code / refresh token / device code presented again, a second
 	// poll): every answer is judged by the same per-request oracle
@@ -982,76 +1130,57 @@ func runHTTP(c HTTPCase, res *vkit.Result, h string) {
 	errorAnswer := false
 	statuses := ""
 	var faults []vkit.Fault
+	var custom *OErr
 	for i, f := range c.Faults {
 		if i >= 4 || !contains(faultKinds, f.Kind) || f.Call < 0 {
 			continue
+		}
+		if f.Err != nil && custom == nil {
+			// the hook replaces the value vkit injects (kinds error / partial) by the storage's own *oidc.Error
+			custom = f.Err
+			if f.Kind != "partial" {
+				f.Kind = "error"
+			}
 		}
 		faults = append(faults, vkit.Fault{Call: f.Call, Method: f.Method, Kind: f.Kind})
 	}
 	faultHit := false
 	for rep := 0; rep <= repeat; rep++ {
+		req, err := w.request()
+		if err != nil {
+			break
+		}
 		if rep > 0 {
-			var err error
-			if req, err = http.ReadRequest(bufio.NewReaderSize(strings.NewReader(raw.String()), 1<<20)); err != nil {
-				break
-			}
-			req.RemoteAddr = "192.0.2.1:1234"
 			method = fmt.Sprintf("[repetition %d] %s", rep, c.Method)
 		}
 		st.SetFaults(faults...)
-		r = vkit.Serve(handler, st, req)
+		hk.setCustom(custom)
+		r = serveStrict(w.handler, st, req, nil)
+		hk.setCustom(nil)
 		st.SetFaults()
 		statuses += fmt.Sprintf("%d ", r.Status)
-		for _, je := range st.CallsOf(r.Req) {
+		calls := st.CallsOf(r.Req)
+		for _, je := range calls {
 			if je.Fault {
 				faultHit = true
 			}
 		}
-
-		if r.Panic != nil {
-			res.Fail(panicFP(r.Stack), "%s %s -> panic: %v (response already started: %v, status %d)\n%s", method, clip(target, 200), r.Panic, r.JournalAtWrite >= 0, r.Status,
-				clip(strings.Join(libFrames(r.Stack), " <- "), 600))
-		}
-		if r.WriteHeaderCalls > 1 {
-			res.Fail("C09:two-responses:"+where, "%s %s: WriteHeader called %d times (first status %d); body %q", method, clip(target, 200), r.WriteHeaderCalls, r.Status, clip(string(r.Body), 300))
-		}
-		if r.Panic == nil && (r.Status < 100 || r.Status > 599) {
-			res.Fail("C09:invalid-status:"+where, "%s %s: status code %d is not a valid HTTP status", method, clip(target, 200), r.Status)
-		}
-		errorAnswer = r.Status >= 400
-		if r.IsRedirect() {
-			if dp := vkit.DeliveredParams(r.Location()); dp.Get("error") != "" {
-				errorAnswer = true
-			}
-		}
-		docs, clean := jsonDocs(r.Body)
-		if strings.HasPrefix(r.Header.Get("Content-Type"), "application/json") && len(r.Body) > 0 && r.WriteHeaderCalls <= 1 && r.Panic == nil {
-			if !clean || len(docs) != 1 {
-				res.Fail("C09:malformed-json-response:"+where, "%s %s: response declared as JSON is not one JSON document: %q", method, clip(target, 200), clip(string(r.Body), 300))
-			}
-		}
-		if errorAnswer {
-			if r.JournalAtWrite >= 0 && r.JournalAtEnd > r.JournalAtWrite {
-				calls := st.CallsOf(r.Req)
-				after := ""
-				if n := r.JournalAtEnd - r.JournalAtWrite; n <= len(calls) {
-					after = calls[len(calls)-n].Method
+		var after []string
+		if r.JournalAtWrite >= 0 && r.JournalAtEnd > r.JournalAtWrite {
+			n := r.JournalAtEnd - r.JournalAtWrite
+			for i := 0; i < n; i++ {
+				m := "?"
+				if n <= len(calls) {
+					m = calls[len(calls)-n+i].Method
 				}
-				res.Fail("C09:storage-after-error:"+where+":"+after, "%s %s: answered %d, then called storage (%s, %d calls after the first response byte)", method, clip(target, 200), r.Status, after, r.JournalAtEnd-r.JournalAtWrite)
-			}
-			if tm := tokenMaterial(r.Body); len(tm) > 0 {
-				res.Fail("C09:tokens-after-error:"+where, "%s %s: error answer (status %d) carries token material %v: %q", method, clip(target, 200), r.Status, tm, clip(string(r.Body), 300))
-			}
-			if r.IsRedirect() {
-				dp := vkit.DeliveredParams(r.Location())
-				for _, k := range tokenMembers {
-					if dp.Get(k) != "" && dp.Get("error") != "" {
-						res.Fail("C09:tokens-after-error:"+where, "%s %s: error redirect carries %s", method, clip(target, 200), k)
-					}
-				}
+				after = append(after, m)
 			}
 		}
-
+		errorAnswer = judgeAnswer(res, r, where, method, target, after)
+	}
+	if r == nil {
+		res.Grey = true
+		return
 	}
 	if repeat > 0 {
 		res.Label(fmt.Sprintf("http-repeat:%d", repeat))
@@ -1067,7 +1196,11 @@ func runHTTP(c HTTPCase, res *vkit.Result, h string) {
 		if f.Method != "" {
 			by = "method"
 		}
-		res.Label("http-fault:"+f.Kind, "http-fault-by:"+by, fmt.Sprintf("http-fault-hit:%v", faultHit))
+		kind := f.Kind
+		if custom != nil {
+			kind = "own-oidc-error:" + f.Kind
+		}
+		res.Label("http-fault:"+kind, "http-fault-by:"+by, fmt.Sprintf("http-fault-hit:%v", faultHit))
 		if faultHit {
 			for _, je := range st.CallsOf(r.Req) {
 				if je.Fault {
@@ -1076,6 +1209,12 @@ func runHTTP(c HTTPCase, res *vkit.Result, h string) {
 				}
 			}
 			res.Label(fmt.Sprintf("http-fault-out:%s:%dxx", strings.SplitN(where, ":", 2)[0], r.Status/100))
+		}
+	}
+	if custom != nil {
+		custom.label(res, hk.customHits() > 0)
+		if hk.customHits() > 0 {
+			res.Label(fmt.Sprintf("http-own-error-out:%s:%d", strings.SplitN(where, ":", 2)[0], r.Status))
 		}
 	}
 
